@@ -67,18 +67,24 @@ def gen(ctx):
     return cases
 
 
-def builder(ops, P):
+def builder(ops, P, style=0):
+    """style 0: text paths, positional; 1: JSONPointer objects; 2: keyword arguments"""
+    from jsonpath import JSONPointer
     p = P()
+    w = (lambda x: JSONPointer(x)) if style == 1 else (lambda x: x)
     for o in ops:
         n = o["op"]
         if n in ("add", "addne", "addap", "replace", "test"):
-            getattr(p, n)(o["path"], o["value"])
+            if style == 2:
+                getattr(p, n)(path=o["path"], value=o["value"])
+            else:
+                getattr(p, n)(w(o["path"]), o["value"])
         elif n == "remove":
-            p.remove(o["path"])
+            p.remove(path=o["path"]) if style == 2 else p.remove(w(o["path"]))
         elif n == "move":
-            p.move(o["from"], o["path"])
+            p.move(from_=o["from"], path=o["path"]) if style == 2 else p.move(w(o["from"]), w(o["path"]))
         else:
-            p.copy(o["from"], o["path"])
+            p.copy(from_=o["from"], path=o["path"]) if style == 2 else p.copy(w(o["from"]), w(o["path"]))
     return p
 
 
@@ -186,11 +192,31 @@ def evaluate(ctx, cases):
             ctx.violation("applying the same patch repeatedly to equal documents must give equal results", inp, results, "all equal")
         if results[0] != m["result"]:
             ctx.mismatch("patch.apply", inp, results[0], m["result"])
-        for other in (p2, p3, p4):
-            r = core.outcome(lambda: other.apply(copy.deepcopy(doc)))
-            rr = {"ok": core.canon(r["ok"])} if "ok" in r else {"err": r["err"]}
-            if rr != results[0]:
-                ctx.violation("patches constructed in different ways must have the same effect", inp, rr, results[0])
+        import io
+        more = []
+        for style in (1, 2):
+            b = core.outcome(lambda: builder(copy.deepcopy(ops), JSONPatch, style))
+            if "ok" in b:
+                more.append(b["ok"])
+            else:
+                ctx.violation("the builder must accept pointer objects and keyword arguments as it accepts text", {**inp, "builder_style": style}, b["err"], "a patch")
+        for mk in (lambda: JSONPatch(io.StringIO(json.dumps(ops))), lambda: JSONPatch(io.BytesIO(json.dumps(ops, ensure_ascii=False).encode("utf-8")))):
+            b = core.outcome(mk)
+            if "ok" in b:
+                more.append(b["ok"])
+            else:
+                ctx.violation("a patch document given as a file-like object must build like its text", inp, b["err"], "a patch")
+        for other in [p2, p3, p4] + more:
+            if core.canon(other.asdicts()) != printed[0]:
+                ctx.violation("every construction form must print the same list of dicts", inp, core.canon(other.asdicts()), printed[0])
+            for k in range(2):     # each of them repeatedly
+                r = core.outcome(lambda: other.apply(copy.deepcopy(doc)))
+                rr = {"ok": core.canon(r["ok"])} if "ok" in r else {"err": r["err"]}
+                if rr != results[0]:
+                    ctx.violation("patches constructed in different ways must have the same effect, on every application", {**inp, "application": k + 1}, rr, results[0])
+                    break
+            if core.canon(other.asdicts()) != printed[0]:
+                ctx.violation("applying a patch must not change the patch itself (whatever way it was constructed)", inp, core.canon(other.asdicts()), printed[0])
         # independence: mutate the first result in depth, re-apply, compare
         if "ok" in results[0]:
             ra = p1.apply(copy.deepcopy(doc))
